@@ -10,12 +10,15 @@ from props.c05 import Case, response, auto_ridx, mp_body, ct_header, prng
 
 PID = "C17"
 THEOREMS = ["C17_mpx_safe", "C17_get_boundary_safe", "C17_write_cb_safe", "C17_dlw_total", "C17_confinement",
-            "C17_verified", "C17_mismatch_zeroed"]
+            "C17_verified", "C17_mismatch_zeroed", "C17_lit_contract"]
 ASSUMPTIONS = [
     "PARTIAL by design: the theorems cover index arithmetic and control flow of the model (every buffer read goes "
     "through a bounds-checked accessor; regex oracle under the contract 'group offsets lie inside the searched "
     "NUL-terminated string'); heap lifetime (malloc/free/realloc of mp->buffer, regex_t, boundary), libc internals "
     "(regcomp/regexec, snprintf) and the hash library are covered only by the ASan/UBSan runs of the harness",
+    "the regex contract is met by Dl/LiteralMatcher.v (C17_lit_contract), which is compared with glibc regexec on every "
+    "(pattern, string) pair of every case (coverage.literal_matcher_vs_glibc); that glibc itself obeys the contract on "
+    "all inputs is trusted",
     "same model, driver and harness as C05 (Dl/DlWrite.v, Dl/Multipart.v, ocaml/drv_c17.ml, harness/zh_c17.c)",
     "the transport stops at the first short return; continuing after zck_clear_error is exercised on the implementation "
     "only (sanitizer oracle), not compared with the model",
